@@ -8,7 +8,7 @@ k,j=divmod(ci,size)
 src=open('%s/cases_%04d.v'%(d,k)).read()
 cut=src.index('Definition bad')
 v=src[:cut]+'''
-Definition c := nth %d cases (HCase (case_cfg (hd (HCaseRaw (Build_config SExact false [] 0 0 0 false false false false 0 0 false) [] []) cases)) [] []).
+Definition c := nth %d cases (HCase (case_cfg (hd (HCaseRaw (Build_config SExact false [] 0 0 0 false false false false 0 0 false false) [] []) cases)) [] []).
 Definition mt := Eval vm_compute in nth_error (model_trace c) %d.
 Definition it := Eval vm_compute in nth_error (impl_trace c) %d.
 Print mt. Print it.
